@@ -11,7 +11,9 @@ class NoFold( Exception ):
     pass
 
 
-_SAFE_BUILTINS = { 'str': str, 'int': int, 'len': len, 'max': max, 'min': min, 'bool': bool, 'abs': abs, 'tuple': tuple, 'list': list }
+_SAFE_BUILTINS = { 'str': str, 'int': int, 'len': len, 'max': max, 'min': min, 'bool': bool, 'abs': abs, 'tuple': tuple, 'list': list,
+                   'all': all, 'any': any, 'zip': lambda *a: list( zip( *a )), 'sorted': sorted, 'set': set, 'dict': dict, 'enumerate': lambda x: list( enumerate( x )),
+                   'range': lambda *a: list( range( *a )), 'sum': sum, 'isinstance': None }
 
 
 def fold( e, env=None ):
@@ -75,7 +77,27 @@ def fold( e, env=None ):
             return sep.join( parts )
         except Exception as exc:
             raise NoFold( str( exc ))
-    if isinstance( e, ast.Call ) and isinstance( e.func, ast.Name ) and e.func.id in _SAFE_BUILTINS and not e.keywords:
+    if isinstance( e, ( ast.GeneratorExp, ast.ListComp )) and len( e.generators ) == 1 and not getattr( e.generators[0], 'is_async', 0 ):
+        g = e.generators[0]
+        seq = fold( g.iter, env )
+        out = []
+        for item in seq:
+            local = {}
+            _bind( g.target, item, local )
+            env2 = _chain_env( local, env )
+            if all( fold( c, env2 ) for c in g.ifs ):
+                out.append( fold( e.elt, env2 ))
+        return out
+    if isinstance( e, ast.Call ) and isinstance( e.func, ast.Attribute ) and e.func.attr in ( 'get', ) and not e.keywords and len( e.args ) in ( 1, 2 ):
+        try:
+            base = fold( e.func.value, env )
+        except NoFold:
+            base = None
+        if isinstance( base, dict ):
+            return base.get( *[ fold( a, env ) for a in e.args ] )
+    if isinstance( e, ast.Dict ) and all( k is not None for k in e.keys ):
+        return { fold( k, env ): fold( v, env ) for k, v in zip( e.keys, e.values ) }
+    if isinstance( e, ast.Call ) and isinstance( e.func, ast.Name ) and e.func.id in _SAFE_BUILTINS and _SAFE_BUILTINS[e.func.id] is not None and not e.keywords:
         args = [ fold( a, env ) for a in e.args ]
         try:
             return _SAFE_BUILTINS[e.func.id]( *args )
@@ -109,6 +131,40 @@ def fold( e, env=None ):
             elif d in env:
                 return env[d]
     raise NoFold( ast.dump( e )[:80] )
+
+
+def _bind( target, value, local ):
+    if isinstance( target, ast.Name ):
+        local[target.id] = value
+    elif isinstance( target, ( ast.Tuple, ast.List )):
+        vals = list( value )
+        if len( vals ) != len( target.elts ):
+            raise NoFold( 'unpack' )
+        for t, v in zip( target.elts, vals ):
+            _bind( t, v, local )
+    else:
+        raise NoFold( 'comprehension target' )
+
+
+def _chain_env( local, env ):
+    def f( d ):
+        if d in local:
+            return local[d]
+        head = d.split( '.' )[0]
+        if head in local:
+            v = local[head]
+            for part in d.split( '.' )[1:]:
+                if isinstance( v, dict ) and part in v:
+                    v = v[part]
+                else:
+                    return NoFold
+            return v
+        if env is None:
+            return NoFold
+        if callable( env ):
+            return env( d )
+        return env.get( d, NoFold )
+    return f
 
 
 def try_fold( e, env=None, default=None ):
